@@ -62,6 +62,7 @@ class Builder:
         h = {"name": name, "crate": f["crate"], "file": rel, "module": self.module, "path": modpath + "::" + name,
              "bounds": bounds, "functions": list(functions), "tier": tier, "cost": cost, "exhaustive": exhaustive,
              "stubbing": bool(stubbing or stubs), "core": core}
+        h["solver"] = solver or "cadical"
         if finding:
             h["finding"] = finding
         if timeout:
